@@ -1,9 +1,21 @@
 #!/usr/bin/env python3
 """Regenerates MANIFEST.json from the table below and validates it."""
 import json, subprocess, sys
-HOOK_COMMITS = ["94c8dd3", "dc6c481", "3ebac5f"]
+HOOK_COMMITS = ["94c8dd3", "dc6c481", "3ebac5f", "b653d74"]
 # id -> dict(level, text, note, technique, design, engine, thorough(bool))
 CHECKS = {
+ "C02": dict(level="fault_enumeration", engine="core_checks", design="§3, §4/C02-C03",
+   technique="bounded-exhaustive query histories x exhaustive crash-point enumeration (every prefix of the file-system calls of the last step) on the real database, reopened with the real open path",
+   text="Every history of <=1 (quick) / <=2 (thorough) steps over the 35-step alphabet H plus close/optimize_storage/shrink_to_fit as last step, from 4 base states (incl. an alias table one insert away from rehashing and a graph with reused ids), is run on DbFile (thorough: also Db); every prefix of the file-system calls the last step makes (thorough: plus 3 byte-prefixes of the interrupted write) is turned into a (data, recovery log) image; each distinct image is reopened with DbFile and Db (thorough: also DbAny file/mapped) and fully dumped: open and every read must succeed, no panic, no single allocation >= 256 MiB.",
+   note="Crash model: prefix of the process's file-system calls (process death; the code never syncs). A refused allocation >= 16 GiB aborts the harness (reported as machinery failure, exit 2)."),
+ "C03": dict(level="fault_enumeration", engine="core_checks", design="§3, §4/C02-C03",
+   technique="bounded-exhaustive query histories x exhaustive crash-point enumeration on the real database, differential oracle against the implementation's own before/after dumps",
+   text="Same enumeration as C02 (histories over H incl. committing and aborted multi-query transactions and a query failing midway; every prefix of the last step's file-system calls); the full ordered dump of every reopened crash image must equal the live database's own dump taken immediately before the step or immediately after it completed (after rollback completed, for failing steps).",
+   note="Images that do not open or read are left to C02. Crash model as C02."),
+ "C32": dict(level="fault_enumeration", engine="core_checks", design="§3, §4/C32",
+   technique="bounded-exhaustive query histories x exhaustive single-fault injection at every storage write/resize call of the last step (public StorageData wrapper around the real FileStorage), follow-up step, close and reopen",
+   text="Every history of <=1 (quick) / <=2 (thorough) steps over H from 4 base states runs on DbImpl<Faulty(FileStorage)>; for the last step each of its storage write/resize calls (up to ~750 per step) fails once without being performed; the query must return Err, the canonical dump must be unchanged, each follow-up step (1 quick / 6 thorough) must behave exactly as on a never-faulted database, and after close + reopen the follow-up's effect must be present. Every step runs under a probe budget so hangs are reported.",
+   note="Fault model: the n-th write/resize returns Err with no side effect; reads, flush and rename never fail. The current tree violates this property by design (no recovery after a failed storage call): listed as open findings, one per failed oracle clause."),
  "C04": dict(level="model_checking", engine="core_checks", design="§4/C04",
    technique="explicit-state breadth-first search with exact state deduplication over the real Storage<MemoryStorage> + bounded-exhaustive lock-step operation sequences on all three back-ends, against a reference model",
    text="(a) BFS from 3 base states over a 35-operation storage alphabet (insert, insert-at incl. beyond the end and zero-length, replace, resize, overlapping/zero-length moves, remove, optimize, reopen) to depth 4 (quick) / 6 (thorough, ~7*10^7 states), visited set keyed by a 128-bit hash of the complete state (raw bytes + record table + free lists); (b) every operation sequence of length <=3 (quick) / <=4 (thorough) executed from scratch on MemoryStorage, FileStorage and FileStorageMemoryMapped. After every operation every index is compared with a BTreeMap<index,bytes> model (whole value, size, reads at offsets, removed indexes unreadable), file length >= live content, and == exactly after optimize.",
